@@ -107,7 +107,7 @@ def main(args=None):
     arguments = _build_arg_parser().parse_args(args)
     process_exclusive_ignorables(
         arguments,
-        ('sources', 'outputs', 'attachments', 'metadata', 'details'))
+        ('sources', 'outputs', 'attachments', 'metadata', 'id', 'details'))
     return main_show(arguments)
 
 
